@@ -42,6 +42,7 @@ IndexPath(c, plat) == JoinPath(SqpackDir(c.sub), PatchIndexName(c.main, c.sub, c
 Content(files, p) == IF p \in DOMAIN files THEN files[p] ELSE <<>>
 \* write d at cell offset off; a write beyond the end zero-extends (sparse seek)
 WriteAt(c, off, d) ==
+  IF d = <<>> THEN c ELSE          \* writing nothing does not extend the file
   LET n == IF Len(c) > off + Len(d) THEN Len(c) ELSE off + Len(d)
   IN [i \in 1..n |-> IF i > off /\ i <= off + Len(d) THEN d[i - off]
                      ELSE IF i <= Len(c) THEN c[i] ELSE Zero]
